@@ -2,3 +2,4 @@ import SppModel.Model.Basic
 import SppModel.Model.Bits
 import SppModel.Model.Plan
 import SppModel.Model.Stream
+import SppModel.Model.Moments
